@@ -138,4 +138,95 @@ theorem escChar_head_ne_quote (printable : Nat → Bool) (q : Nat) (hq : q = 39 
   all_goals simp
   all_goals omega
 
+/-- a single-quoted (not triple-quoted) literal: `lexString` is `lexBody` with fuel = input length -/
+theorem lexString_cons (q : Nat) (hq : q = 39 ∨ q = 34) (cs : Str)
+    (hnt : ∀ tl, cs ≠ q :: q :: tl) : lexString (q :: cs) = lexBody q cs.length cs := by
+  cases cs with
+  | nil => simp [lexString, hq]
+  | cons a t =>
+    cases t with
+    | nil => simp [lexString, hq]
+    | cons b tl =>
+      have : ¬ (a = q ∧ b = q) := by
+        intro h
+        exact hnt tl (by rw [h.1, h.2])
+      simp [lexString, hq, this]
+
+/-! ### the output alphabet of `repr` -/
+
+theorem hexDigit_range (d : Nat) (h : d < 16) : 48 ≤ hexDigit d ∧ hexDigit d ≤ 102 := by
+  unfold hexDigit; split <;> omega
+
+/-- an output character of `repr`: printable ASCII, or non-ASCII that the oracle calls printable -/
+def OkOut (printable : Nat → Bool) (c : Nat) : Prop :=
+  (c < 128 → 32 ≤ c ∧ c ≠ 127) ∧ (128 ≤ c → printable c = true)
+
+theorem okOut_ascii (printable : Nat → Bool) (c : Nat) (h1 : 32 ≤ c) (h2 : c < 127) : OkOut printable c :=
+  ⟨fun _ => ⟨h1, by omega⟩, fun h => by omega⟩
+
+theorem okOut_hex (printable : Nat → Bool) (d : Nat) (h : d < 16) : OkOut printable (hexDigit d) := by
+  have := hexDigit_range d h
+  exact okOut_ascii printable _ (by omega) (by omega)
+
+theorem escChar_ok (printable : Nat → Bool) (q : Nat) (hq : q = 39 ∨ q = 34) (c : Nat) :
+    ∀ y ∈ escChar printable q c, OkOut printable y := by
+  intro y hy
+  unfold escChar at hy
+  have hx : ∀ d, d < 16 → OkOut printable (hexDigit d) := okOut_hex printable
+  by_cases h1 : c = q ∨ c = 92
+  · rw [if_pos h1] at hy
+    simp at hy
+    rcases hy with rfl | rfl
+    · exact okOut_ascii printable _ (by omega) (by omega)
+    · exact okOut_ascii printable _ (by omega) (by omega)
+  rw [if_neg h1] at hy
+  by_cases h2 : c = 9
+  · rw [if_pos h2] at hy; simp at hy
+    rcases hy with rfl | rfl <;> exact okOut_ascii printable _ (by omega) (by omega)
+  rw [if_neg h2] at hy
+  by_cases h3 : c = 10
+  · rw [if_pos h3] at hy; simp at hy
+    rcases hy with rfl | rfl <;> exact okOut_ascii printable _ (by omega) (by omega)
+  rw [if_neg h3] at hy
+  by_cases h4 : c = 13
+  · rw [if_pos h4] at hy; simp at hy
+    rcases hy with rfl | rfl <;> exact okOut_ascii printable _ (by omega) (by omega)
+  rw [if_neg h4] at hy
+  by_cases h5 : c < 32 ∨ c = 127
+  · rw [if_pos h5] at hy; simp [hex2] at hy
+    rcases hy with rfl | rfl | rfl | rfl
+    · exact okOut_ascii printable _ (by omega) (by omega)
+    · exact okOut_ascii printable _ (by omega) (by omega)
+    · exact hx _ (by omega)
+    · exact hx _ (by omega)
+  rw [if_neg h5] at hy
+  by_cases h6 : c < 127
+  · rw [if_pos h6] at hy; simp at hy; subst hy
+    exact okOut_ascii printable _ (by omega) h6
+  rw [if_neg h6] at hy
+  by_cases h7 : printable c = true
+  · rw [if_pos h7] at hy; simp at hy; subst hy
+    exact ⟨fun h => by omega, fun _ => h7⟩
+  rw [if_neg h7] at hy
+  by_cases h8 : c ≤ 255
+  · rw [if_pos h8] at hy; simp [hex2] at hy
+    rcases hy with rfl | rfl | rfl | rfl
+    · exact okOut_ascii printable _ (by omega) (by omega)
+    · exact okOut_ascii printable _ (by omega) (by omega)
+    · exact hx _ (by omega)
+    · exact hx _ (by omega)
+  rw [if_neg h8] at hy
+  by_cases h9 : c ≤ 65535
+  · rw [if_pos h9] at hy; simp [hex4] at hy
+    rcases hy with rfl | rfl | rfl | rfl | rfl | rfl
+    · exact okOut_ascii printable _ (by omega) (by omega)
+    · exact okOut_ascii printable _ (by omega) (by omega)
+    all_goals exact hx _ (by omega)
+  rw [if_neg h9] at hy
+  simp [hex8] at hy
+  rcases hy with rfl | rfl | rfl | rfl | rfl | rfl | rfl | rfl | rfl | rfl
+  · exact okOut_ascii printable _ (by omega) (by omega)
+  · exact okOut_ascii printable _ (by omega) (by omega)
+  all_goals exact hx _ (by omega)
+
 end Adaptix.Gen
